@@ -200,6 +200,7 @@ def run_chi2(A, b, s, conv, order, layout='plain'):
 
 
 EPS = 2.220446049250313e-16
+NORMW = 1e-11       # eps * conditioning allowance of these small systems (the same constant as in the chi2 rule)
 
 
 def chi2_tol(chi, Q):
@@ -313,11 +314,15 @@ def wls_mismatch(obs, e, b, s):
         return 'exception ' + obs['exc']
     M, N = len(e['acoeff']), len(e['yfit'])
 
-    def agrees(o, x, sc):
-        return bool(np.isfinite(o)) and abs(o - float(x)) <= RTOL * max(abs(float(x)), float(sc))
-    if len(obs['acoeff']) != M or any(not agrees(o, x, sc) for o, x, sc in zip(obs['acoeff'], e['acoeff'], e['sx'])):
+    def agrees(o, x, sc, vec):
+        # componentwise at the tolerance, with a ROUND-OFF level floor relative to the whole vector (a solver that
+        # rotates the unknowns, as an SVD does, spreads eps * conditioning * |vector| over every component, also over
+        # one that is decoupled and exactly zero)
+        return bool(np.isfinite(o)) and abs(o - float(x)) <= max(RTOL * max(abs(float(x)), float(sc)), NORMW * vec)
+    vx, vy = max(float(v) for v in e['sx']), max(float(v) for v in e['sy'])
+    if len(obs['acoeff']) != M or any(not agrees(o, x, sc, vx) for o, x, sc in zip(obs['acoeff'], e['acoeff'], e['sx'])):
         return 'acoeff'
-    if len(obs['yfit']) != N or any(not agrees(o, x, sc) for o, x, sc in zip(obs['yfit'], e['yfit'], e['sy'])):
+    if len(obs['yfit']) != N or any(not agrees(o, x, sc, vy) for o, x, sc in zip(obs['yfit'], e['yfit'], e['sy'])):
         return 'yfit'
     if not (np.isfinite(obs['chi2']) and abs(obs['chi2'] - float(e['chi2'])) <= chi2_tol(e['chi2'], nat_q(b, s, e['sy']))):
         return 'chi2'
@@ -1039,16 +1044,16 @@ def wls_record(A, b, s, conv, order, layout='plain'):
         return rec
     dev = 0
 
-    def q(v, scale, tol=XTOL):
+    def q(v, scale, vec=0.0, tol=XTOL):
         """the nearby small rational, and how far (units of tol * max(|q|, natural scale)) the float is from it"""
         nonlocal dev
         n, d, _ = small_rational(v)
-        ref = tol * max(abs(n / d), float(scale))
+        ref = max(tol * max(abs(n / d), float(scale)), NORMW * vec)
         diff = abs(float(v) - n / d) if np.isfinite(v) else np.inf
         dev = max(dev, 0 if diff == 0 else (CLIP if ref == 0 else units(diff, ref)))
         return [n, d]
-    ret = {'err': False, 'acoeff': [q(v, sc) for v, sc in zip(obs['acoeff'], sx)],
-           'yfit': [q(v, sc) for v, sc in zip(obs['yfit'], sy)], 'dof': obs['dof']}
+    ret = {'err': False, 'acoeff': [q(v, sc, float(np.max(sx))) for v, sc in zip(obs['acoeff'], sx)],
+           'yfit': [q(v, sc, float(np.max(sy))) for v, sc in zip(obs['yfit'], sy)], 'dof': obs['dof']}
     chi = small_rational(obs['chi2'])
     ret['chi2'] = [chi[0], chi[1]]
     dchi = abs(obs['chi2'] - chi[0] / chi[1]) if np.isfinite(obs['chi2']) else np.inf
@@ -1342,7 +1347,10 @@ def run(ctx):
         'it the scale is exactly 0 where an entry of M^-1 vanishes and the unchanged code, like numpy.linalg.lstsq, returns '
         '1e-16 there; fitted value i: sum_j |A_ij| scale_j; rescaled with the case in the unit / shift variants by '
         'ScaleHomogeneous); covariance entries relative to sqrt(covar_jj covar_kk), variances to themselves.  EXACT ZEROS ARE '
-        'NOT DEMANDED beyond tol x scale (b orthogonal to a column: any backward-stable solver returns round-off there).  '
+        'NOT DEMANDED beyond tol x scale (b orthogonal to a column: any backward-stable solver returns round-off there); '
+        'below the tolerance level there is a round-off floor 1e-11 x (largest natural scale of the vector): where an unknown '
+        'is decoupled and exactly zero (M block-diagonal) the componentwise scale is exactly 0, and every SVD-based solver, '
+        'the unchanged code and numpy.linalg.lstsq included, returns ~1e-16 x |x| there.  '
         'chi2, a sum of squared residuals, is judged relative to itself plus round-off-level multiples of its natural scale '
         'Q = sum w_i (|b_i| + scale_i)^2: 1e-9 chi2 + 256 eps sqrt(chi2 Q) + 1e-22 Q (tol x Q would hide a cancelling '
         'evaluation of chi2 such as b.b - x.(M^T b))',
